@@ -157,6 +157,8 @@ where
             id,
             shutdown_coordinator,
         } = self;
+        #[cfg(pavex_verif)]
+        super::verif_trace::set_worker_id(id as u64);
         'event_loop: loop {
             let message =
                 poll_fn(|cx| Self::poll_inboxes(cx, &mut shutdown_inbox, &mut connection_inbox))
@@ -178,10 +180,23 @@ where
                     match mode {
                         ShutdownMode::Graceful { timeout } => {
                             // Stop accepting new connections.
+                            #[cfg(pavex_verif)]
+                            let mut verif_log = super::verif_trace::lock();
                             connection_inbox.close();
+                            #[cfg(pavex_verif)]
+                            {
+                                verif_log.push("w_close", id as u64, 0);
+                                drop(verif_log);
+                            }
 
                             // Kick-off work for all pending connections.
                             while let Some(connection) = connection_inbox.recv().await {
+                                #[cfg(pavex_verif)]
+                                super::verif_trace::record(
+                                    "w_drain",
+                                    id as u64,
+                                    connection.peer_addr.port() as u64,
+                                );
                                 Self::handle_connection(
                                     connection,
                                     handler,
@@ -190,13 +205,34 @@ where
                                 );
                             }
 
+                            #[cfg(pavex_verif)]
+                            super::verif_trace::record("w_drain_end", id as u64, 0);
+
                             // Wait for all live connections to be closed or for the timeout to expire.
+                            #[cfg(pavex_verif)]
+                            super::verif_trace::record("w_signal", id as u64, 0);
+                            #[cfg(pavex_verif)]
+                            let verif_wait_start = std::time::Instant::now();
                             let _ = tokio::time::timeout(timeout, shutdown_coordinator.shutdown())
                                 .await;
+                            // The wait is over before `timeout` has elapsed iff it completed.
+                            #[cfg(pavex_verif)]
+                            super::verif_trace::record(
+                                "w_wait_end",
+                                id as u64,
+                                (verif_wait_start.elapsed() >= timeout) as u64,
+                            );
                         }
                         ShutdownMode::Forced => {}
                     }
+                    #[cfg(pavex_verif)]
+                    let mut verif_log = super::verif_trace::lock();
                     let _ = completion_notifier.send(());
+                    #[cfg(pavex_verif)]
+                    {
+                        verif_log.push("w_notify", id as u64, 0);
+                        drop(verif_log);
+                    }
                     break 'event_loop;
                 }
             }
@@ -236,8 +272,19 @@ where
         let connection_future =
             shutdown_coordinator.watch(builder.serve_connection(connection, handler).into_owned());
         tokio::task::spawn_local(async move {
+            #[cfg(pavex_verif)]
+            let mut verif_end = super::verif_trace::ConnEnd {
+                conn: peer_addr.port() as u64,
+                completed: false,
+            };
+            #[cfg(pavex_verif)]
+            super::verif_trace::record("c_poll", peer_addr.port() as u64, 0);
             if let Err(e) = connection_future.await {
                 log_error!(*e, level: tracing::Level::WARN, "Failed to serve an incoming connection");
+            }
+            #[cfg(pavex_verif)]
+            {
+                verif_end.completed = true;
             }
         });
     }
@@ -248,11 +295,25 @@ where
         shutdown_inbox: &mut tokio::sync::mpsc::UnboundedReceiver<ShutdownWorkerCommand>,
         connection_inbox: &mut tokio::sync::mpsc::Receiver<ConnectionMessage>,
     ) -> Poll<WorkerInboxMessage> {
+        #[cfg(pavex_verif)]
+        let mut verif_log = super::verif_trace::lock();
         // Order matters here: we want to prioritize shutdown messages over incoming connections.
         if let Poll::Ready(Some(message)) = shutdown_inbox.poll_recv(cx) {
+            #[cfg(pavex_verif)]
+            verif_log.push(
+                "w_shutdown",
+                super::verif_trace::worker_id(),
+                super::verif_trace::mode_code(&message.mode),
+            );
             return Poll::Ready(message.into());
         }
         if let Poll::Ready(Some(message)) = connection_inbox.poll_recv(cx) {
+            #[cfg(pavex_verif)]
+            verif_log.push(
+                "w_recv",
+                super::verif_trace::worker_id(),
+                message.peer_addr.port() as u64,
+            );
             return Poll::Ready(message.into());
         }
         Poll::Pending
